@@ -5,9 +5,9 @@
    code as it was before the repair of F-C10 (8b69b91). *)
 From Coq Require Import List Arith NArith Bool.
 From Eino Require Import Base.Util Base.GoSlice Model.Callbacks Model.CallbacksStream Model.CallbacksSched
-  Model.CallbacksResume Model.CallbacksEager.
+  Model.CallbacksResume Model.CallbacksEager Model.CallbacksPayload.
 From Eino Require Import Proofs.CallbacksSlice Proofs.Callbacks Proofs.CallbacksEngine Proofs.CallbacksStream
-  Proofs.CallbacksSched Proofs.CallbacksWitness Proofs.CallbacksResume Proofs.CallbacksEager.
+  Proofs.CallbacksSched Proofs.CallbacksWitness Proofs.CallbacksResume Proofs.CallbacksEager Proofs.CallbacksPayload.
 Import ListNotations.
 Local Open Scope N_scope.
 
@@ -610,6 +610,55 @@ Proof.
   - vm_compute. repeat (constructor; [simpl; intuition discriminate|]). constructor.
   - split; vm_compute; reflexivity.
 Qed.
+
+(* ------------------------------------------------------------------ payloads *)
+
+(* Operations with the payload their On call is given ([pop]); [prun]: the run in which every
+   invocation is logged with the payload the handler was handed (Model/CallbacksPayload.v).
+   Forgetting the payloads gives back the plain run - the payload-carrying model is the model
+   all other theorems are about: *)
+Theorem payload_log_erases :
+  forall fixed w (pops : list pop),
+    map fst (p_log (prun fixed w pops)) = st_log (run_script fixed w (map fst pops)).
+Proof. exact plog_erases. Qed.
+Print Assumptions payload_log_erases.
+
+(* every invocation hands the handler the payload of an On call of the script, made for the
+   unit and with the timing of that invocation - never another call's payload *)
+Theorem payload_is_the_calls :
+  forall fixed w (pops : list pop) e p,
+    In (e, p) (p_log (prun fixed w pops)) ->
+    exists u t, In (OOn u t, p) pops /\ ev_unit e = u /\ ev_timing e = t.
+Proof. exact payload_delivered. Qed.
+Print Assumptions payload_is_the_calls.
+
+(* WITH THE PAYLOAD THE UNIT CONSUMED OR PRODUCED.  [annot]: the On calls of a graph run with the
+   payloads runWithCallbacks / runner.run give them: [pin u] what unit u is then run on, [pout u]
+   what it returned, [perr u] the error it returned.  For every graph, options, schedule of the
+   tree and reordering of it (eager collection): the invocations for a unit of the table are
+   exactly its expected events, every start invocation carrying what the unit consumes, every
+   end / stream-end invocation what it produced, every error invocation the error it ended with. *)
+Theorem handlers_get_the_units_own_payload :
+  forall w is_stream g ginf opts stages t0 t,
+    NoDup (g :: stages_uids stages) ->
+    traces (graph_prog is_stream g ginf opts stages) t0 -> reorder t0 t ->
+    forall e, In e (graph_table is_stream g ginf opts stages) ->
+      filter (fun x => of_unit (ue_unit e) (fst x)) (p_log (prun true w (map annot t))) =
+      map (fun ev => (ev, payload_of (ue_unit e) (ev_timing ev))) (uexp_events w e).
+Proof. exact engine_unit_payloads. Qed.
+Print Assumptions handlers_get_the_units_own_payload.
+
+Example payloads_nonvacuous :
+  (* the eager execution of the example above: node 2 (handlers 1, 5, global 9) *)
+  filter (fun x => of_unit 2 (fst x)) (p_log (prun true (w_plain [9]) (map annot eg_eager))) =
+    [(Ev 2 9 TStart 2, pin 2); (Ev 2 5 TStart 2, pin 2); (Ev 2 1 TStart 2, pin 2);
+     (Ev 2 1 TEnd 2, pout 2); (Ev 2 5 TEnd 2, pout 2); (Ev 2 9 TEnd 2, pout 2)] /\
+  filter (fun x => of_unit 1 (fst x)) (p_log (prun true (w_plain [9]) (map annot eg_eager))) =
+    [(Ev 1 9 TStart 1, pin 1); (Ev 1 1 TStart 1, pin 1); (Ev 1 1 TError 1, perr 1); (Ev 1 9 TError 1, perr 1)] /\
+  (* a script: the third and fourth operations are On calls with payloads 3 and 4 *)
+  map snd (p_log (prun true (w_plain [9]) (numbered [ORaw 0 100 0%nat [1; 2] 1%nat; OAppend (Some 0) 1 101 [[7]];
+                                                     OOn 1 TStart; OOn 0 TEnd]))) = [3; 3; 3; 3; 4; 4; 4].
+Proof. vm_compute. repeat split; reflexivity. Qed.
 
 (* ------------------------------------------------------------------ stream_payload_independent *)
 
